@@ -85,6 +85,7 @@ pub fn gen_cfg(t: &mut Tape, profile: Profile) -> RunCfg {
         p_cancel: [0, 50, 200, 500][t.choose(4) as usize],
         p_write_zero: [0, 0, 0, 0, 0, 10, 40][t.choose(7) as usize],
         p_slow_write: 0,
+        p_peer_stall: 0,
         zero_time_io: false,
         p_withhold_ack: [0, 50, 200, 500][t.choose(4) as usize],
         p_fail_reason: [0, 0, 50, 200][t.choose(4) as usize],
@@ -121,6 +122,7 @@ pub fn gen_cfg(t: &mut Tape, profile: Profile) -> RunCfg {
     // run in eight): timers run while a packet is half-written
     if c.p_stall == 300 && c.p_partial_write >= 400 && profile != Profile::Timing {
         c.p_slow_write = 60;
+        c.p_peer_stall = 40;
     }
     // rare large-arena runs: 16 KiB / 2 MiB remaining-length boundaries, 65535/65536-byte fields
     let big = matches!(profile, Profile::General | Profile::Limits) && t.chance(1, 120);
@@ -249,6 +251,7 @@ pub fn gen_cfg(t: &mut Tape, profile: Profile) -> RunCfg {
             c.w = OpWeights { poll: 60, pub0: 3, pub1: 3, pub2: 2, sub: 1, broker_pub: 6, ..Default::default() };
             c.delay_law = 2 + t.choose(2);
             c.p_no_pingresp = [0, 100, 400][t.choose(3) as usize];
+            c.p_peer_stall = [0, 0, 150][t.choose(3) as usize];
             c.p_withhold_ack = 0;
             c.max_conns = 1 + t.choose(3);
             c.max_steps = 20 + t.choose(120);
@@ -547,13 +550,14 @@ pub fn benign_drain(conn: &mut Conn<'_, '_>) -> bool {
         for ((_, seq), ev) in evs {
             let keep = match &ev {
                 world::Event::Deliver { conn, .. } | world::Event::Close { conn } => *conn == cur,
-                world::Event::Unblock { .. } => false,
+                world::Event::Unblock { .. } | world::Event::ReleaseHeld { .. } => false,
             };
             if keep {
                 w.events.insert((clock::now(), seq), ev);
             }
         }
         w.conns[cur].write_blocked_until = 0; // the link is fast again
+        w.release_held(cur); // ... and the peer no longer stalls
         broker::release_withheld(w, cur);
         let ep = w.epoch;
         let pending = w.reqs.iter().filter(|r| r.epoch == ep && !r.invalidated && r.accept != Accept::NotAccepted && r.qos > 0 && !matches!(r.phase, Phase::Done(_))).count();
